@@ -582,10 +582,14 @@ fn op_order(base: &Base, w: &mut World, md: &mut Model, rng: &mut Rng, m: &mut M
     let Some(pre_u) = w.user_header(&owner) else { return };
     let Some(pre_gt) = w.gt_state() else { return };
     let carry = pre_u.gt().paid_fee_value().saturating_sub(pre_u.gt().minted_fee_value());
-    let fee_bound = req.size_delta_value / 500 + size_now / 100;
+    let fee_bound = req.size_delta_value / 500 + size_now / 50;
+    let fee_floor = req.size_delta_value / 4_000;
     if pre_gt.minting_cost() != 0 {
         let worst = (carry + fee_bound) / pre_gt.minting_cost();
-        if worst <= u64::MAX as u128 && !md.steps_ok(worst as u64) {
+        let least = (carry + fee_floor) / pre_gt.minting_cost();
+        // Either certainly beyond u64 (rejected before the loop) or certainly within the step bound.
+        let certainly_overflows = least > u64::MAX as u128;
+        if !certainly_overflows && (worst > u64::MAX as u128 || !md.steps_ok(worst as u64)) {
             m.count("order_skipped_by_step_guard");
             return;
         }
